@@ -31,12 +31,12 @@ def cfg_text(import_ids, new_ids, labels, wscrypt, max_obj, max_ops, acts, dev_n
              "  Threads = {%s}" % ", ".join(str(t) for t in threads),
              "  Split = %s" % s(list(split)),
              "  OneShot = %s" % ("TRUE" if oneshot else "FALSE"),
-             "VIEW view",
+             "VIEW viewn" if oneshot else "VIEW view",
              "INVARIANTS " + " ".join(invariants)]
     if props:
         lines.append("PROPERTIES FailNoChange AuthCurrent")
     if export:
-        lines += ["CONSTRAINT InitOut", "ACTION_CONSTRAINT Edge"]
+        lines += ["CONSTRAINT InitOutN", "ACTION_CONSTRAINT EdgeN"] if oneshot else ["CONSTRAINT InitOut", "ACTION_CONSTRAINT Edge"]
     lines.append("CHECK_DEADLOCK FALSE")
     return "\n".join(lines) + "\n"
 
@@ -223,7 +223,7 @@ def replay(ctx, binary, paths, tag, import_ids, all_ids, labels, wscrypt, dev, o
 # two client threads on one ClientImpl (spec/Wallet.tla: Threads, Split, pend, OneShot; harness conc_test.go)
 # ------------------------------------------------------------------------------------------------------------------
 CONC_ACTS = ["New", "Import", "Delete", "SetDefault", "SetLabel", "ChangePassword", "ChangeScheme", "Open"]
-CONC_SCRYPT = {"n": 4096, "r": 8, "p": 1, "dkLen": 64}   # one key derivation ~ 10-20 ms: the width of a check segment
+CONC_SCRYPT = {"n": 2048, "r": 8, "p": 1, "dkLen": 64}   # one key derivation ~ 5-10 ms: the width of a check segment
 NULLOBJ = {"id": 0, "label": "", "dflt": False, "scheme": "", "pwd": "", "enc": ""}
 CORE = ("accts", "objs", "addrIdx", "labelIdx", "dfltPtr", "nnew", "fault")
 ARGS = ("name", "id", "label", "scheme", "pwd", "old", "new")
@@ -258,7 +258,7 @@ def core(st, max_obj=None):
     return d
 
 
-def pick_seeds(ctx, edges, inits, k):
+def pick_seeds(ctx, edges, inits, k, rng):
     """k prepared wallets for the two-thread run: reachable states of a sequential run (with the shortest call sequence
     that leads there).  Always: the empty wallet and the smallest two-account wallets with either account as the
     default; the rest is drawn with the run's seed."""
@@ -289,10 +289,18 @@ def pick_seeds(ctx, edges, inits, k):
             seen.add(g)
             fixed.append(c)
     rest = [c for c in cands if c not in fixed]
-    ctx.rng.shuffle(rest)
-    # prefer wallets with two accounts (more calls are enabled, more pairs interfere)
-    rest.sort(key=lambda c: -len(states[c]["accts"]))
-    chosen = (fixed + rest)[:k]
+    rng.shuffle(rest)
+    # one wallet per shape (listed accounts with label, password, default flag; scheme and list order ignored), wallets
+    # with two accounts first (more calls are enabled, more pairs interfere)
+    shape = lambda st: tuple(sorted((st["objs"][o - 1]["id"], st["objs"][o - 1]["label"], st["objs"][o - 1]["pwd"], st["objs"][o - 1]["dflt"]) for o in st["accts"]))
+    shapes = {shape(states[c]) for c in fixed}
+    uniq = []
+    for c in rest:
+        if shape(states[c]) not in shapes:
+            shapes.add(shape(states[c]))
+            uniq.append(c)
+    uniq.sort(key=lambda c: -len(states[c]["accts"]))
+    chosen = (fixed + uniq)[:k]
     return [{"state": states[c], "prefix": dist[c]} for c in chosen]
 
 
@@ -321,7 +329,7 @@ def tlc_conc(ctx, seeds, dev, kw):
     if missing or not any(e["act"].get("ph") == "act" for e in edges):
         ctx.infra("vacuous two-thread model run: %s never taken / no split call" % missing)
     ctx.log("TLC two threads: %d seeds, %d generated, %d distinct, depth %d, %d edges, %.1fs" % (len(seeds), r.generated, r.distinct, r.depth, len(edges), r.wall))
-    return r, edges
+    return r, edges, r.prints.get("INIT", [])
 
 
 def split_selftest(ctx, seeds, dev, kw, ops):
@@ -343,33 +351,40 @@ def call_of(act):
 
 
 def conc_graph(edges):
-    g = {}
+    """canonical state -> [(who, canonical call, answer or None while pending, canonical successor)], and the states"""
+    g, states, memo = {}, {}, {}
+
+    def cn(st):
+        k = id(st)
+        if k not in memo:
+            memo[k] = vf.canon(st)
+        return memo[k]
     for e in edges:
-        g.setdefault(vf.canon(e["from"]), []).append(e)
-    return g
+        cf, ct = cn(e["from"]), cn(e["to"])
+        states.setdefault(cf, e["from"])
+        states.setdefault(ct, e["to"])
+        res = e["act"]["res"]
+        g.setdefault(cf, []).append((e["who"], vf.canon(call_of(e["act"])), None if res == "pending" else res, ct))
+    return g, states
 
 
-def outcomes_12(g, st, a, b):
-    """all outcomes of thread 1 calling a and thread 2 calling b from st (thread 1's first segment runs first -- OneShot).
-    Returns {canon((resA, resB, core(final)))} or None if the model cannot make the calls from st."""
-    ca, cb = vf.canon(a), vf.canon(b)
-    out = {}
-    stack = [(st, None, None)]
-    ok = False
+def outcomes_12(g, c0, ca, cb):
+    """all outcomes of thread 1 making call ca and thread 2 making call cb from state c0 (thread 1's first segment runs
+    first -- OneShot).  Returns {(resA, resB, canonical final state)} or None if the bounded model cannot make the calls."""
+    out = set()
+    stack = [(c0, None, None)]
     while stack:
         cur, ra, rb = stack.pop()
         if ra is not None and rb is not None:
-            out[vf.canon([ra, rb, core(cur)])] = (ra, rb, cur)
+            out.add((ra, rb, cur))
             continue
         moved = False
-        for e in g.get(vf.canon(cur), []):
-            c = vf.canon(call_of(e["act"]))
-            fin = e["act"]["res"] != "pending"
-            if e["who"] == 1 and ra is None and c == ca:
-                stack.append((e["to"], e["act"]["res"] if fin else None, rb))
+        for who, c, res, to in g.get(cur, []):
+            if who == 1 and ra is None and c == ca:
+                stack.append((to, res, rb))
                 moved = True
-            elif e["who"] == 2 and rb is None and c == cb:
-                stack.append((e["to"], ra, e["act"]["res"] if fin else None))
+            elif who == 2 and rb is None and c == cb:
+                stack.append((to, ra, res))
                 moved = True
         if not moved:
             return None   # a call that the bounded model cannot make / complete here
@@ -390,46 +405,43 @@ def long_first_segment(st, a):
     return True
 
 
-def conc_cases(ctx, seeds, edges, budget):
+def conc_cases(ctx, seeds, edges, inits, budget, rng):
     """ordered pairs (A issued first, B issued while A is in flight) to run on the real wallet.  A pair is kept when the
     two calls interfere in the model (A;B and B;A differ), plus a seeded sample of the commuting ones; every ordered pair
     of operation names is wanted."""
-    g = conc_graph(edges)
+    g, states = conc_graph(edges)
     inter, commute = [], []
     for si, sd in enumerate(seeds):
+        # the exported start state of this seed
         st0 = None
-        for c, es in g.items():
-            pass
-        # the exported start state of this seed (pend idle)
-        for e in edges:
-            if e["from"]["pend"][0]["pc"] == "idle" and e["from"]["pend"][1]["pc"] == "idle" and e["who"] == 1 \
-                    and vf.canon(core(e["from"])) == vf.canon(core(sd["state"], len(e["from"]["objs"]))):
-                st0 = e["from"]
+        for s0 in inits:
+            if vf.canon(core(s0)) == vf.canon(core(sd["state"], len(s0["objs"]))):
+                st0 = s0
                 break
         if st0 is None:
             ctx.infra("two-thread model: prepared wallet %d not among the exported initial states" % si)
             continue
-        calls = {}
-        for e in g.get(vf.canon(st0), []):
-            if e["who"] == 1:
-                calls[vf.canon(call_of(e["act"]))] = call_of(e["act"])
-        calls = [calls[k] for k in sorted(calls)]
-        for a in calls:
-            for b in calls:
+        c0 = vf.canon(st0)
+        calls = sorted({c for who, c, _, _ in g.get(c0, []) if who == 1})
+        outs = {(ca, cb): outcomes_12(g, c0, ca, cb) for ca in calls for cb in calls}
+        for ca in calls:
+            a = json.loads(ca)
+            for cb in calls:
+                b = json.loads(cb)
                 if a["name"] == "New" and b["name"] == "New":
                     continue   # the harness names a created account by the model's id, which depends on the order
-                o_ab, o_ba = outcomes_12(g, st0, a, b), outcomes_12(g, st0, b, a)
+                o_ab, o_ba = outs[(ca, cb)], outs[(cb, ca)]
                 if o_ab is None or o_ba is None:
                     continue
                 allowed = {}
-                for ra, rb, fin in o_ab.values():
-                    allowed[vf.canon([ra, rb, core(fin)])] = (ra, rb, fin)
-                for rb, ra, fin in o_ba.values():
-                    allowed[vf.canon([ra, rb, core(fin)])] = (ra, rb, fin)
+                for ra, rb, fin in o_ab:
+                    allowed[(ra, rb, vf.canon(core(states[fin])))] = (ra, rb, states[fin])
+                for rb, ra, fin in o_ba:
+                    allowed[(ra, rb, vf.canon(core(states[fin])))] = (ra, rb, states[fin])
                 case = {"seed": si, "a": a, "b": b, "allowed": allowed, "long": long_first_segment(st0, a), "st0": st0}
                 (inter if len(allowed) > 1 else commute).append(case)
-    ctx.rng.shuffle(inter)
-    ctx.rng.shuffle(commute)
+    rng.shuffle(inter)
+    rng.shuffle(commute)
     # every ordered pair of operation names first, interfering pairs before commuting ones, long-first-segment first
     chosen, names = [], set()
     pool = sorted(inter, key=lambda c: not c["long"]) + commute
@@ -541,7 +553,7 @@ def replay_conc(ctx, binary, seeds, cases, kw, timeout=1500):
     stat["name_pairs"] = len({(cases[ci]["a"]["name"], cases[ci]["b"]["name"]) for ci in done})
     if len(done) != len(cases):
         ctx.infra("two-thread replay: %d of %d pairs produced an observation" % (len(done), len(cases)))
-    if stat["long_pairs"] and stat["forced_overlap"] * 10 < stat["long_pairs"] * 7:
+    if stat["long_pairs"] and stat["forced_overlap"] * 2 < stat["long_pairs"]:
         ctx.infra("two-thread replay: the second call was engaged during the first call's check segment in only %d of %d pairs"
                   % (stat["forced_overlap"], stat["long_pairs"]))
     return stat
